@@ -52,11 +52,11 @@ def brief(sc, oi):
     return {"classes": sc["classes"], "enums": sc.get("enums"), "ops_up_to_call": sc["ops"][:oi + 1]}
 
 
-def run_generic(ctx, prop, bits, what, n_quick, n_thorough, softs=False, small=True, tree=False, hist=False, tag=None):
+def run_generic(ctx, prop, bits, what, n_quick, n_thorough, softs=False, small=True, tree=False, hist=False, tag=None, ninst=1):
     """bits: mask of s_check bits that are violations of this property; bit 1 (terms) is always the tie (A)"""
     rnd = random.Random("%s-%d" % (prop, ctx.seed))
     n = n_quick if ctx.quick() else n_thorough
-    gen = lambda r: solvegen.Gen(r, small=small, tree=tree, hist=hist).scenario(ncalls=3, softs=softs)
+    gen = lambda r: solvegen.Gen(r, small=small, tree=tree, hist=hist, ninst=ninst).scenario(ncalls=3, softs=softs)
     scenarios = [gen(rnd) for _ in range(n)]
     stats = {"evaluations": 0, "outcomes": {}, "nowt": 0}
 
